@@ -714,6 +714,50 @@ static void build_library(void) {
     lib_range("[0,65535] minus x7", 0, 65535, 7);
     lib_range("[1000,9000) minus x64", 1000, 9000, 64);
     lib_range("[60000,65535]", 60000, 65535, 0);
+    /* sets whose container type is a left-over of their past: empty but still dense / run-encoded, a few members left
+     * in a dense container, the full universe built by single adds */
+    {
+        bitset m0;
+        varintBitmap *vb;
+        memset(&m0, 0, sizeof m0);
+        vb = varintBitmapCreate();
+        for (uint32_t i = 0; i < 5000; i++) {
+            varintBitmapAdd(vb, (uint16_t)(i * 13));
+        }
+        varintBitmapClear(vb);
+        lib_add("cleared (was dense)", vb, &m0);
+        vb = varintBitmapCreate();
+        varintBitmapAddRange(vb, 100, 9000);
+        varintBitmapClear(vb);
+        lib_add("cleared (was a range)", vb, &m0);
+        vb = varintBitmapCreate();
+        for (uint32_t i = 0; i < 5000; i++) {
+            varintBitmapAdd(vb, (uint16_t)(i * 13));
+        }
+        for (uint32_t i = 3; i < 5000; i++) {
+            varintBitmapRemove(vb, (uint16_t)(i * 13));
+        }
+        bs_set(&m0, 0);
+        bs_set(&m0, 13);
+        bs_set(&m0, 26);
+        lib_add("3 left of 5000", vb, &m0);
+        vb = varintBitmapCreate();
+        memset(&m0, 0, sizeof m0);
+        for (uint32_t i = 0; i < U; i++) {
+            varintBitmapAdd(vb, (uint16_t)i);
+            bs_set(&m0, i);
+        }
+        lib_add("universe by single adds", vb, &m0);
+        vb = varintBitmapCreate();
+        memset(&m0, 0, sizeof m0);
+        for (uint32_t i = 0; i < U; i++) {
+            if (i != 12345) {
+                varintBitmapAdd(vb, (uint16_t)i);
+                bs_set(&m0, i);
+            }
+        }
+        lib_add("universe minus one", vb, &m0);
+    }
     vh_infostr("pairs_library", "%d sets", NLIB);
 }
 
